@@ -388,10 +388,13 @@ def protocol(rep, meths):
               "returned as stored, before anything else", node=fn)
     store_blk = None
     for node in ast.walk(fn):
-        if isinstance(node, ast.If):
-            for i, st in enumerate(node.body):
+        for field in ("body", "orelse"):
+            blk0 = getattr(node, field, None)
+            if not isinstance(blk0, list):
+                continue
+            for i, st in enumerate(blk0):
                 if isinstance(st, ast.Assign) and unparse(st.targets[0]) == "self.data[key]":
-                    store_blk = (node.body, i)
+                    store_blk = (blk0, i)
     if store_blk is None:
         raise AnalysisError("__getitem__: store `self.data[key] = ...` not found")
     blk, i = store_blk
